@@ -19,7 +19,6 @@ import (
 	"net/http"
 	"os"
 	"os/user"
-	"path"
 	"path/filepath"
 
 	_ "net/http/pprof"
@@ -116,26 +115,60 @@ func expand(path string) (string, error) {
 	return filepath.Join(usr.HomeDir, path[1:]), nil
 }
 
+// WithToken loads the sensor token from <datadir>/token, or generates and persists
+// one. A token file that does not hold a well-formed token (empty or truncated, as
+// left behind by an interrupted first start) is replaced by a fresh token. The file
+// is written to a temporary file and renamed into place, so that it is never
+// observed partially written.
 func WithToken() OptionFn {
-	uid := xid.New().String()
-
 	return func(h *Honeytrap) error {
-		h.token = uid
+		p := filepath.Join(h.dataDir, "token")
 
-		p := h.dataDir
-		p = path.Join(p, "token")
+		data, err := ioutil.ReadFile(p)
+		if err == nil {
+			if _, err := xid.FromString(string(data)); err == nil {
+				h.token = string(data)
+				return nil
+			}
+		} else if !os.IsNotExist(err) {
+			return err
+		}
 
-		if _, err := os.Stat(p); os.IsNotExist(err) {
-			ioutil.WriteFile(p, []byte(uid), 0600)
-		} else if err != nil /* other error */ {
+		uid := xid.New().String()
+
+		if err := writeFileAtomic(p, []byte(uid), 0600); err != nil {
 			return err
-		} else if data, err := ioutil.ReadFile(p); err != nil {
-			return err
-		} else {
-			uid = string(data)
 		}
 
 		h.token = uid
 		return nil
 	}
+}
+
+func writeFileAtomic(p string, data []byte, perm os.FileMode) error {
+	f, err := ioutil.TempFile(filepath.Dir(p), filepath.Base(p)+".tmp")
+	if err != nil {
+		return err
+	}
+
+	tmp := f.Name()
+
+	_, err = f.Write(data)
+	if err == nil {
+		err = f.Chmod(perm)
+	}
+	if err == nil {
+		err = f.Sync()
+	}
+	if cerr := f.Close(); err == nil {
+		err = cerr
+	}
+	if err == nil {
+		err = os.Rename(tmp, p)
+	}
+	if err != nil {
+		os.Remove(tmp)
+	}
+
+	return err
 }
